@@ -46,3 +46,12 @@ package pause
 //@   local waited int = 0
 //@   after Wait(wg)#1: waited = 1
 //@   assert CompareAndSwap(isPaused)#1: [after-all-acks] @C14 waited == 1 // C14: Resume: receive once from every subscriber's ResumeCh, then CAS true->false
+
+// The per-subscriber goroutine of Resume: it finishes (and lets Resume's wg.Wait go on to switch
+// the state back) only after it has received on that subscriber's ResumeCh - a handshake value or
+// the close by Unsubscribe; no subscriber is skipped on any other ground.
+//@ func Resume$1$1
+//@   property C14
+//@   local got int = 0
+//@   after recv(ResumeCh)#1: got = 1
+//@   ensures [waited-for-this-subscriber] @C14 got == 1 // C14: Resume: receive once from every subscriber's ResumeCh (a subscriber whose pause signal is still parked in its buffer is waited for like any other: it will take the signal and must find Resume still there)
